@@ -518,20 +518,19 @@ class Fw:
             self.problems.append('%s: vacuity witness not reached (%s %s)' % (r['label'], r['status'], [f['msg'] for f in r['failed']][:4]))
         return good
 
-    def known_finding_lines(self, harness_for_root):
-        """print KNOWN-FINDING lines for the listed findings of this property that still reproduce on the real library"""
+    def kf_listed(self, fid):
+        return any(f['id'] == fid for f in self.kf.get('findings', []) if f['property'] == self.prop)
+
+    def known_finding_lines(self):
+        """replay every listed finding of this property on the real library; print KNOWN-FINDING for those that still reproduce"""
         for f in [x for x in self.kf.get('findings', []) if x['property'] == self.prop]:
-            root = f.get('root')
-            h = harness_for_root.get(root)
-            if h is None:
-                continue
-            harness, defines = h
-            rep = self.replay(harness, root, f['inputs'], defines, f.get('check'), f.get('stack_mb'))
+            rep = self.replay(f['harness'], f['root'], f['inputs'], f.get('defines', ()), f.get('check'), f.get('stack_mb'))
             if rep['reproduced']:
                 print('KNOWN-FINDING: property=%s %s' % (self.prop, f['what']), flush=True)
                 f['_reproduced'] = True
             else:
                 self.notes.append('listed finding %s no longer reproduces on this tree' % f['id'])
+                self.log('note: listed finding %s does not reproduce on this tree (rc=%s %s)' % (f['id'], rep['rc'], rep['checkfails']))
                 f['_reproduced'] = False
 
     # ------------------------------------------------------------------ evidence
@@ -595,6 +594,7 @@ def std_rules(string=None, vector=None, table=33, setchar=12, extra=()):
     r = list(extra)
     r.append((r'St3setIcSt4lessIcEE', setchar))
     r.append((r'__vstd_fmt_u?int', 22))
+    r.append((r'__vstd_stoi|__vstd_stod|__vrt_stod_classify', 24))
     if table:
         r.append((r'^_ZNK?St3mapI', table))
         r.append((r'^_ZNSt3mapI', table))
